@@ -4,6 +4,7 @@ pub mod hashes;
 pub mod bg4;
 pub mod xorb;
 pub mod shard;
+pub mod shard_ops;
 pub mod deduper;
 pub mod session;
 pub mod reconstruct;
@@ -16,6 +17,8 @@ pub fn run(suite: &str, ctx: &mut Ctx) -> bool {
         "hashes" => hashes::run(ctx),
         "bg4" => bg4::run(ctx),
         "shard" => shard::run(ctx),
+        "shard_ops" => shard_ops::run_ops(ctx),
+        "keyed" => shard_ops::run_keyed(ctx),
         "singleflight" => singleflight::run(ctx),
         "reconstruct" => reconstruct::run(ctx),
         "session" => session::run_parent(ctx),
